@@ -176,6 +176,11 @@ static void runCase(const std::string& mode, const std::string& choiceTxt, const
         else if (dim == "nparams") { c.extra = "custom"; for (int i = 0; i < n; ++i) c.customParams.push_back(gen::GParam::ints("P" + std::to_string(i), {}, {i - 100})); }
         else if (dim == "ngroups") { c.extraGroups = n; }
     }
+    else if (ch.count("tail")) {   // the last record of the parameter section ends k bytes before the end of its last block, behind z leading zero bytes
+        int z = atoi(ch["tail"].c_str()), k = atoi(ch["tail"].substr(ch["tail"].find(':') + 1).c_str()); gen::Choice none; gen::apply(none, c, l); l.zeros = z; c.extra = "custom";
+        auto build = [&](int fill) { c.customParams.clear(); int a = fill / 2, b2 = fill - a; std::vector<int> va((size_t)a, 0x41), vb((size_t)b2, 0x42); c.customParams.push_back(gen::GParam::bytes("FILLA", {a}, va)); c.customParams.push_back(gen::GParam::bytes("FILLB", {b2}, vb)); c.customParams.push_back(gen::GParam::ints("LAST", {}, {1234})); };
+        build(0); { std::string b0 = gen::encode(c, l); ref::File F0; if (!ref::decode(b0, F0, true).empty()) { out.outcome = "not-well-formed"; return; } long S0 = (long)(F0.termOffset - F0.paramOffset); long want = ((S0 + k) / 512 + 1) * 512 - k; long fill = want - S0; if (fill < 0 || fill > 500) { out.outcome = "not-well-formed"; return; } build((int)fill); }
+    }
     else if (ch.count("strpad")) {   // sweep of declared string widths against text lengths: a text of t characters in cells of w characters (the writer pads, the reader trims)
         int w = atoi(ch["strpad"].c_str()), t = atoi(ch["strpad"].substr(ch["strpad"].find(':') + 1).c_str()); gen::Choice none; gen::apply(none, c, l); c.extra = "custom";
         std::string text; for (int i = 0; i < t; ++i) text += (char)('a' + i % 26);
@@ -274,6 +279,7 @@ int main(int argc, char** argv) {
         if (mode == "c02" || mode == "c04") for (int w = 0; w <= 255; ++w) for (int t : {0, 1, 6}) { if (t > w) continue; gen::Choice c; c["strpad"] = std::to_string(w) + ":" + std::to_string(t); choices.push_back(c); }
         if (mode == "c02" || mode == "c04") for (auto dim : {"points", "chans", "frames", "spf", "nparams", "ngroups"}) for (int n : {15, 16, 17, 31, 32, 33, 63, 64, 65, 127, 128, 129, 254, 255}) {   // every count at the powers of two and their neighbours
             if ((std::string(dim) == "spf" && n > 129) || (std::string(dim) == "ngroups" && n > 120)) continue; gen::Choice c; c["size"] = std::string(dim) + ":" + std::to_string(n); choices.push_back(c); }
+        if (mode == "c02" || mode == "c04") for (int z : {0, 7, 37, 511, 549}) for (int k = 1; k <= 24; ++k) { gen::Choice c; c["tail"] = std::to_string(z) + ":" + std::to_string(k); choices.push_back(c); }   // where the section ends inside its last block x leading zeros
         for (auto& c : choices) cases.push_back(gen::choiceText(c)); }
     if (mode == "corpus") {
         mkdir(emitDir.c_str(), 0755); size_t n = 0; FILE* idx = fopen((emitDir + "/index.txt").c_str(), "w");
